@@ -76,6 +76,7 @@ pub struct SchedReader<'a> {
     sched: Sched,
     rng: Rng,
     fault_at: Option<usize>,
+    fault_kind: io::ErrorKind,
     pub log: Rc<RefCell<ReadLog>>,
 }
 
@@ -89,10 +90,14 @@ impl<'a> SchedReader<'a> {
             Sched::Random(s, _) => *s,
             _ => 0,
         };
-        SchedReader { data, pos: 0, sched, rng: Rng::new(seed), fault_at: None, log: Rc::new(RefCell::new(ReadLog::default())) }
+        SchedReader { data, pos: 0, sched, rng: Rng::new(seed), fault_at: None, fault_kind: io::ErrorKind::Other, log: Rc::new(RefCell::new(ReadLog::default())) }
     }
     pub fn with_fault(mut self, k: usize) -> Self {
         self.fault_at = Some(k);
+        self
+    }
+    pub fn with_fault_kind(mut self, kind: io::ErrorKind) -> Self {
+        self.fault_kind = kind;
         self
     }
     pub fn log_handle(&self) -> Rc<RefCell<ReadLog>> {
@@ -113,7 +118,7 @@ impl<'a> Read for SchedReader<'a> {
         if let Some(k) = self.fault_at {
             if self.pos >= k {
                 log.faults_returned += 1;
-                return Err(io::Error::new(io::ErrorKind::Other, READ_MARK));
+                return Err(io::Error::new(self.fault_kind, READ_MARK));
             }
             limit = limit.min(k);
         }
